@@ -273,13 +273,20 @@ def box_cases():
                 if ind is not None:
                     op["is_independent"] = ind
                 yield (CONFIGS[0], 2, False, [op])
+    # every ordered pair of single cells carved out of the shared default (the shape of the open finding:
+    # whether the round trip works depends on where the carved cells sort)
+    cells = [(e, l) for e in range(3) for l in range(2)]
+    for e1, l1 in cells:
+        for e2, l2 in cells:
+            yield (CONFIGS[0], 2, False, [dict(edges=[e1], loci=[l1], init=3.0),
+                                          dict(edges=[e2], loci=[l2], is_constant=True, value=2.0)])
 
 
 def corr_rules2(ctx, out):
     """REAL multi-locus likelihood functions vs Model/ParamRules2.lean (see module docstring)"""
     rng = ctx.subrng("corr-rules2")
     cases = list(box_cases())
-    for _ in range(ctx.budget(90, 1500)):
+    for _ in range(ctx.budget(70, 1500)):
         cfg = CONFIGS[4] if rng.random() < 0.1 else rng.choice(CONFIGS[:4])
         taxa_idx = rng.randrange(len(TAXA_SETS))
         indep = rng.random() < 0.25
@@ -348,6 +355,7 @@ def corr_rules2(ctx, out):
         bump(out, "rules2_ngroups", len(final["rules"]))
         if len(final["rules"]) > 1:
             out["nontrivial"].add(("rules2", len(out["nontrivial"])))
-            if len(out["samples"]) < 6:
+            n_same = sum(1 for x in out["samples"] if x.get("kind") == "rules2" and x["order_sound"] == m["order_sound"])
+            if n_same < 3:
                 out["samples"].append(dict(inp, order_sound=m["order_sound"], n_rules=len(final["rules"]),
                                            nfp=final["nfp"], roundtrip_nfp=rt["nfp"]))
